@@ -308,6 +308,51 @@ int main(int argc, char ** argv)
         g->shoot(T, E);
         check("earlier-life-as-another-configuration", std::string("earlier life as ") + prev.label() + (lived ? "" : " (refused)") + ", reset(), real configuration", E, T.pos);
       }
+      // H12: a user-defined post-generation operation that appends a copy of the event's own first particle (add_particle is handed a
+      // reference into the very list it appends to - legitimate for a container), shot into a fresh event and into an event object whose
+      // capacity equals the number of particles the shot produces (a copy of the expected result): the list is then full when the
+      // operation appends
+      if (ti < 3) {
+        struct EchoFirst : public bxdecay0::i_event_op
+        {
+          std::string name() const override { return "echo-first"; }
+          void operator()(bxdecay0::i_random &, bxdecay0::event & ev) override
+          {
+            if (!ev.get_particles().empty()) ev.add_particle(ev.get_particles().front());
+          }
+          void smart_dump(std::ostream &, const std::string &) const override {}
+        };
+        std::unique_ptr<decay0_generator> g(new decay0_generator);
+        configure(*g, c);
+        g->add_operation(std::make_shared<EchoFirst>());
+        Tape tie(seed, 1);
+        g->initialize(tie);
+        bxdecay0::event Ea;
+        T.rewind();
+        g->shoot(T, Ea);
+        size_t da = T.pos;
+        bxdecay0::event Eb(Ea); // capacity == size of the result
+        Eb.reset();
+        // (reset() may or may not keep the storage; a second variant copies the plain event, one particle shorter)
+        T.rewind();
+        g->shoot(T, Eb);
+        bxdecay0::event Ec(E0);
+        T.rewind();
+        g->shoot(T, Ec);
+        evals++;
+        kinds_seen.insert("echo-operation");
+        bool shape_ok = Ea.get_particles().size() == E0.get_particles().size() + 1 && !E0.get_particles().empty()
+                        && particles_bit_identical(Ea.get_particles().back(), E0.get_particles().front());
+        if (!shape_ok || da != d0 || T.pos != d0 || !events_bit_identical(Ea, Eb) || !events_bit_identical(Ea, Ec)) {
+          Mismatch & x = mm[lab + "|echo-operation"];
+          if (x.count++ == 0) {
+            x.key = lab + "|echo-operation";
+            x.detail = "an operation appending a copy of the event's first particle: the result is not the plain event plus that copy, or depends on the capacity of the event object";
+            x.ref = event_json(E0);
+            x.port = event_json(Eb);
+          }
+        }
+      }
       // H9: initialisation with another deviate source
       for (uint64_t is : {3ull, 4ull}) {
         auto g = fresh(is);
